@@ -241,6 +241,57 @@ func checkStemChunks(w *World, r *Report) {
 		r.Fail("stemchunk", r.MkKey("stemchunk", "encodeCharString", "chunk"), w.Pos(fn.Pos()), "no chunking of the stem list found", nil)
 	}
 	r.Floor("stemchunk", 1)
+	checkStemBase(w, r, fn)
+}
+
+// checkStemBase: every stem operator starts again at 0 (TN5177 4.3: the
+// first value of hstem/vstem is relative to 0).  The deltas handed to
+// encodeNumber are x - prev; in the loop over one chunk, prev must enter with
+// the constant 0 — not with what the previous chunk left behind.
+func checkStemBase(w *World, r *Report, fn *ssa.Function) {
+	r.Rule("stembase: in encodeCharString the running edge that the stem deltas are taken against (the subtrahend of the value handed to encodeNumber in the chunk loop) enters the loop over each chunk as the constant 0: every hstem/vstem operator starts at 0 again")
+	n := 0
+	for _, b := range fn.Blocks {
+		for _, in := range b.Instrs {
+			c, ok := in.(*ssa.Call)
+			if !ok {
+				continue
+			}
+			cal := c.Call.StaticCallee()
+			if cal == nil || cal.Name() != "encodeNumber" || len(c.Call.Args) != 1 {
+				continue
+			}
+			sub, ok := c.Call.Args[0].(*ssa.BinOp)
+			if !ok || sub.Op != token.SUB {
+				continue
+			}
+			ph, ok := sub.Y.(*ssa.Phi)
+			if !ok || !isLoopPhi(ph) {
+				continue
+			}
+			n++
+			key := r.MkKey("stembase", "encodeCharString", "base of the stem deltas")
+			bad := ""
+			for i, e := range ph.Edges {
+				if ph.Block().Dominates(ph.Block().Preds[i]) {
+					continue // back edge
+				}
+				cst, isC := e.(*ssa.Const)
+				if !isC || cst.Value == nil || !(constant.Sign(cst.Value) == 0) {
+					bad = "the base enters the chunk loop as " + e.Name() + ", not as 0"
+				}
+			}
+			if bad == "" {
+				r.OK("stembase", key, w.Pos(sub.Pos()), "the base is 0 at the start of every chunk")
+			} else {
+				r.Fail("stembase", key, w.Pos(sub.Pos()), bad+": the stems of the second and later operators of one direction are written relative to the last edge of the previous operator, but every stem operator counts from 0", nil)
+			}
+		}
+	}
+	if n == 0 {
+		r.Fail("stembase", r.MkKey("stembase", "encodeCharString", "base of the stem deltas"), w.Pos(fn.Pos()), "no delta x - prev handed to encodeNumber in a loop found", nil)
+	}
+	r.Floor("stembase", 1)
 }
 
 // ---- operand counts of the path operators (AST interpreter)
